@@ -101,9 +101,10 @@ Record obj := mkObj {
 
 Record state := mkSt {
   tens : list P;
-  pds : list (option (option nat));  (* per _parameters dict: None = no key `params` *)
+  pds : nat -> option (option nat);  (* per _parameters dict: None = no key `params` *)
+  npd : nat;                         (* next unused dict id *)
   objs : list obj }.
-Definition empty_state : state := mkSt [] [] [].
+Definition empty_state : state := mkSt [] (fun _ => None) 0 [].
 
 Definition tag := (P * G * bool)%type.
 Inductive outcome :=
@@ -126,17 +127,17 @@ Fixpoint replace {A} (n : nat) (x : A) (l : list A) : list A :=
   end.
 Definition tval (s : state) (r : nat) : P := nth r (tens s) p0.
 Definition new_ten (s : state) (p : P) : nat * state :=
-  (length (tens s), mkSt (tens s ++ [p]) (pds s) (objs s)).
-Definition set_ten (s : state) (r : nat) (p : P) : state := mkSt (replace r p (tens s)) (pds s) (objs s).
+  (length (tens s), mkSt (tens s ++ [p]) (pds s) (npd s) (objs s)).
+Definition set_ten (s : state) (r : nat) (p : P) : state := mkSt (replace r p (tens s)) (pds s) (npd s) (objs s).
 Definition get_obj (s : state) (o : nat) : option obj := nth_error (objs s) o.
-Definition set_obj (s : state) (o : nat) (ob : obj) : state := mkSt (tens s) (pds s) (replace o ob (objs s)).
+Definition set_obj (s : state) (o : nat) (ob : obj) : state := mkSt (tens s) (pds s) (npd s) (replace o ob (objs s)).
 Definition push_obj (s : state) (ob : obj) : nat * state :=
-  (length (objs s), mkSt (tens s) (pds s) (objs s ++ [ob])).
-Definition get_pd (s : state) (d : nat) : option (option nat) := nth d (pds s) None.
+  (length (objs s), mkSt (tens s) (pds s) (npd s) (objs s ++ [ob])).
+Definition get_pd (s : state) (d : nat) : option (option nat) := pds s d.
 Definition set_pd (s : state) (d : nat) (v : option (option nat)) : state :=
-  mkSt (tens s) (replace d v (pds s)) (objs s).
+  mkSt (tens s) (fun d' => if Nat.eqb d' d then v else pds s d') (npd s) (objs s).
 Definition new_pd (s : state) (v : option (option nat)) : nat * state :=
-  (length (pds s), mkSt (tens s) (pds s ++ [v]) (objs s)).
+  (npd s, mkSt (tens s) (fun d' => if Nat.eqb d' (npd s) then v else pds s d') (S (npd s)) (objs s)).
 
 Definition with_obj {A} (s : state) (o : nat) (f : obj -> res A) : res A :=
   match get_obj s o with Some ob => f ob | None => Er IndexErr s end.
